@@ -377,14 +377,23 @@ class G(object):
     def s_raise_guarded(self):
         self.features.add('raise')
         exc = self.ch(EXCS[:13] + [e for e in self.user_excs])
-        form = self.ch(['raise %s()', 'raise %s', 'raise %s(%s)', 'raise %s() from None', 'raise %s() from KeyError()'])
-        txt = form % ((exc, self.str_lit()) if form.count('%s') == 2 else (exc,))
+        form = self.ch(['raise %s()', 'raise %s', 'raise %s(%s)', 'raise %s() from None', 'raise %s() from KeyError()', 'raise %s(*[])', 'raise %s(**{})',
+                        'raise %s(*[1, 2])', 'KW'])
+        if form == 'KW':
+            # builtin exceptions called with keyword arguments only (the brackets must stay)
+            txt = self.ch(["raise ImportError(name='module_name')", "raise ImportError(name='m', path='p')", 'raise SystemExit(code=3)',
+                           "raise RuntimeError(**{'detail': 1})", "raise ImportError(**{'name': 'n'})", "raise ValueError() from ImportError(name='cause_name')"])
+            exc = 'ImportError' if 'raise ImportError' in txt else 'Exception'
+        else:
+            txt = form % ((exc, self.str_lit()) if form.count('%s') == 2 else (exc,))
         self.emit('try:')
         self.emit('    if %s:' % self.cond())
         self.emit('        ' + txt)
         self.emit('    print(repr(%s))' % self.int_expr())
-        self.emit('except %s as caught_error:' % self.ch([exc, 'Exception', 'LookupError', '(ValueError, KeyError, TypeError)', exc]))
-        self.emit('    print(type(caught_error).__name__, repr(caught_error.args))')
+        self.emit('except %s as caught_error:' % self.ch([exc, 'Exception', 'BaseException', '(ValueError, KeyError, TypeError, ImportError)', exc]))
+        # messages the interpreter writes (NameError, TypeError, AttributeError...) mention names of locals and local functions,
+        # which are documented reflective views: only arguments the program itself passed (ints, pool strings) are shown
+        self.emit('    print(type(caught_error).__name__, repr([a for a in caught_error.args if isinstance(a, int) or a in %r]), repr(getattr(caught_error, "name", None) if isinstance(caught_error, ImportError) else None), repr(getattr(caught_error.__cause__, "name", None) if isinstance(caught_error.__cause__, ImportError) else None))' % (tuple(STR_POOL),))
 
     def s_unpack(self):
         a = self.fresh(INT_NAMES)
@@ -814,7 +823,7 @@ class G(object):
             self.emit('    return %s.%s * 2' % (self_name, ia))
             attrs.append('doubled')
         self.ind -= 1
-        inst = self.fresh(['thing_instance', 'obj', 'C'])
+        inst = self.fresh(['thing_instance', 'obj', 'G'])
         self.emit('%s = %s(%s)' % (inst, name, self.ch(['', self.int_lit(), 'start_value=%s' % self.int_lit()])))
         self.define('inst', inst, [a for a in attrs if a != '__slots__'])
         self.emit('print(repr(%s.%s(%s, scale_factor=%s)), repr(%s.%s), repr(%s.__doc__))' % (inst, m, self.int_lit(), self.int_lit(), inst, ca, name))
